@@ -9,7 +9,7 @@
    bookkeeping values ol (applied index) and od (leader index). *)
 From Coq Require Import Sorted.
 From Verif Require Import Model.Bytes Model.SMap Model.KeyEnc Model.Cmd Model.Fsm Model.Spec.
-From Verif Require Import Proofs.SMapFacts Proofs.FsmRefine Proofs.SpecFacts.
+From Verif Require Import Proofs.SMapFacts Proofs.FsmRefine Proofs.SpecFacts Proofs.DeleteResp.
 
 (* every response of every command and every later read, index reads included, equals the plain map's *)
 Theorem C01_refines : forall (steps : list step) (ol od : option N) (st : spec_state),
@@ -76,3 +76,21 @@ Proof.
   split; [|vm_compute; reflexivity].
   repeat constructor; try discriminate; unfold u64, u64o; cbn; try exact I; try reflexivity.
 Qed.
+
+(* the response of a range delete.  It is computed by rangeLookup, i.e. it is the first page of the chunked
+   iteration: it equals the plain map's answer (every deleted pair, their number) exactly when no size cut happens
+   ([nocut_pairs]: the pairs fit into one page of fsm_maxRangeSize); a count without pairs is exact for every range.
+   For larger ranges with prev_kv the response is truncated - the sorted-map specification [Model/Spec.v] used in
+   C01_refines has this paging built in; that deviation from a plain map is an open known finding
+   (KNOWN_FINDINGS.json F-C01-delete-prev-paged), exhibited on the real code by the c01 engine's large-delete case. *)
+Theorem C01_delete_prev_exact : forall (U : umap) (lo hi : bytes) (cnt : bool),
+  Proofs.DeleteResp.nocut_pairs MFull (p_scan U lo hi) [] 0%Z = true ->
+  snd (handle_delete umap p_get p_del p_delrange p_scan U {| dl_key := lo; dl_end := Some hi; dl_prev := true; dl_count := cnt |})
+  = RDel (Z.of_nat (length (p_scan U lo hi))) (p_scan U lo hi).
+Proof. exact Proofs.DeleteResp.delete_prev_exact. Qed.
+Print Assumptions C01_delete_prev_exact.
+Theorem C01_delete_count_exact : forall (U : umap) (lo hi : bytes),
+  snd (handle_delete umap p_get p_del p_delrange p_scan U {| dl_key := lo; dl_end := Some hi; dl_prev := false; dl_count := true |})
+  = RDel (Z.of_nat (length (p_scan U lo hi))) [].
+Proof. exact Proofs.DeleteResp.delete_count_exact. Qed.
+Print Assumptions C01_delete_count_exact.
